@@ -27,7 +27,7 @@ STYLES = ["camelCase", "snake_case", "PascalCase", "SCREAMING_CASE", "_lead", "x
           "mixed_Snake_Case", "ALLCAPS", "a"]
 CONTROLS = ["name", "value", "fora", "types", "selfish", "Selfie", "asyncx", "tryit", "boxed", "matcher"]
 POSITIONS = ["response_field", "alias", "variable", "input_field", "oneof_member", "enum_value", "id_field", "optional_id_alias",
-             "alias_of_own_rust_name"]
+             "alias_of_own_rust_name", "recursive_input_field"]
 
 
 def rust_field_name(name):
@@ -70,6 +70,10 @@ def build(name, position):
     elif position == "input_field":
         types.append(gql.inp("In", [(name, "Int"), ("plain", "Int")]))
         vars_ = [("i", "In", None)]
+    elif position == "recursive_input_field":
+        # the field closes a cycle (it gets an indirection): escaping and indirection have to compose
+        types.append(gql.inp("In", [(name, "In"), ("plain", "Int")]))
+        vars_ = [("i", "In", None)]
     elif position == "oneof_member":
         types.append(gql.inp("Pick", [(name, "Int"), ("plainMember", "String")], one_of=True))
         vars_ = [("p", "Pick", None)]
@@ -94,20 +98,20 @@ def run(tier):
                 variants.append((f, "keyword_variant"))
     mods = []
     for name, klass in names + variants:
-        for pos in (POSITIONS if klass != "keyword_variant" else (["variable", "input_field", "response_field", "id_field", "alias_of_own_rust_name"] if tier == "quick" else POSITIONS)):
+        for pos in (POSITIONS if klass != "keyword_variant" else (["variable", "input_field", "response_field", "id_field", "alias_of_own_rust_name", "recursive_input_field"] if tier == "quick" else POSITIONS)):
             if pos == "enum_value" and name in ("true", "false", "null"):
                 continue  # not GraphQL enum values
-            if name.startswith("__") and pos in ("response_field", "input_field", "oneof_member", "enum_value", "id_field"):
+            if name.startswith("__") and pos in ("response_field", "input_field", "oneof_member", "enum_value", "id_field", "recursive_input_field"):
                 continue  # `__` names are reserved for introspection in schemas
             if pos == "alias_of_own_rust_name" and (rust_field_name(name) == name or not re.match(r"^[A-Za-z][A-Za-z0-9_]*$", rust_field_name(name))):
                 continue  # nothing to tell apart
             schema, doc = build(name, pos)
             mods.append({"name": name, "class": klass, "pos": pos, "schema": schema, "doc": doc, "fmt": "sdl"})
             # names that live in the schema: the same module from the introspection-JSON rendering of the schema
-            if pos in ("response_field", "id_field", "input_field", "oneof_member", "enum_value") and (klass != "keyword_variant" or tier == "thorough"):
+            if pos in ("response_field", "id_field", "input_field", "oneof_member", "enum_value", "recursive_input_field") and (klass != "keyword_variant" or tier == "thorough"):
                 mods.append({"name": name, "class": klass, "pos": pos, "schema": schema, "doc": doc, "fmt": "json"})
             # positions whose Rust identifier goes through the normalization: also under normalization = rust
-            if pos in ("enum_value", "oneof_member", "variable", "input_field"):
+            if pos in ("enum_value", "oneof_member", "variable", "input_field", "recursive_input_field"):
                 mods.append({"name": name, "class": klass, "pos": pos, "schema": schema, "doc": doc, "fmt": "sdl", "norm": "rust"})
     resps = generate([gen_request(m["schema"].sdl() if m["fmt"] == "sdl" else m["schema"].introspection(), gql.render_doc(m["doc"]), dict(DEFAULT_OPTS, normalization=m.get("norm", "none")),
                                   ext="graphql" if m["fmt"] == "sdl" else "json") for m in mods])
@@ -145,6 +149,8 @@ def run(tier):
             reqs.append({"case": m["case"], "module": "op", "what": "vars", "arg": {n: 7}})
         elif m["pos"] == "input_field":
             reqs.append({"case": m["case"], "module": "op", "what": "vars", "arg": {"i": {n: 7, "plain": 1}}})
+        elif m["pos"] == "recursive_input_field":
+            reqs.append({"case": m["case"], "module": "op", "what": "vars", "arg": {"i": {n: {"plain": 1}, "plain": 2}}})
         elif m["pos"] == "oneof_member":
             reqs.append({"case": m["case"], "module": "op", "what": "vars", "arg": {"p": {n: 7}}})
         else:
@@ -167,6 +173,8 @@ def run(tier):
             good = out.get("variables") == {n: 7}
         elif m["pos"] == "input_field":
             good = out.get("variables") == {"i": {n: 7, "plain": 1}}
+        elif m["pos"] == "recursive_input_field":
+            good = out.get("variables") == {"i": {n: {n: None, "plain": 1}, "plain": 2}}
         elif m["pos"] == "oneof_member":
             good = out.get("variables") == {"p": {n: 7}}
         else:
@@ -177,7 +185,7 @@ def run(tier):
     cov = {
         "evaluations": len(mods) + len(reqs), "distinct_nontrivial": sum(1 for m in mods if m["class"] != "control"),
         "rule": "one generated module per (name, position): %d keywords (strict, reserved and weak, editions 2015-2024), %d case "
-                "styles, %d non-keyword controls x 9 positions (response field, alias, alias of the field that is named like the alias's own Rust field, variable, input field, @oneOf member, enum value, ID-typed field, alias of an optional ID; minus combinations GraphQL itself forbids; the positions whose name lives in the schema also with the schema rendered as introspection JSON), plus every keyword in "
+                "styles, %d non-keyword controls x 10 positions (recursive input field, response field, alias, alias of the field that is named like the alias's own Rust field, variable, input field, @oneOf member, enum value, ID-typed field, alias of an optional ID; minus combinations GraphQL itself forbids; the positions whose name lives in the schema also with the schema rendered as introspection JSON), plus every keyword in "
                 "other case styles (Capitalised, _leading; thorough also UPPER and trailing_) at the positions that snake_case it; every module is "
                 "compiled and one value is sent through the named position; non-trivial = keyword or style names" %
                 (len(KEYWORDS), len(STYLES), len(CONTROLS)),
